@@ -825,8 +825,12 @@ def evaluate(ctx, cases):
          "C12.Model.natural (what the cdef implies) vs gcc layout of the cdef's struct"))
     from concurrent.futures import ThreadPoolExecutor
     with ThreadPoolExecutor(3) as ex:
-        futs = [ex.submit(vlib.coq_mismatches, ["C12.Spec", "C12.Gen", "C12.Model"], fexpr, eqb, cases_, 400)
-                for cases_, owner, fexpr, eqb, corr in batches]
+        # every expected literal carries its type: a shard whose outcomes are all `Err _` would
+        # otherwise leave the parameter of `Err` undetermined
+        types = ["option (res Z)", "res layout", "res layout"]
+        futs = [ex.submit(vlib.coq_mismatches, ["C12.Spec", "C12.Gen", "C12.Model"], fexpr, eqb,
+                          [(i, "(%s : %s)" % (o, ty)) for i, o in cases_], 400)
+                for (cases_, owner, fexpr, eqb, corr), ty in zip(batches, types)]
         results = [f.result() for f in futs]
     for (cases_, owner, fexpr, eqb, corr), (bad, outs, err) in zip(batches, results):
         if err:
